@@ -1004,6 +1004,12 @@ func (x *c03Ctx) payloadHex(cs c03Case, i int) string {
 		if cs.Payloads[i] == "-" {
 			return "-"
 		}
+		if p := cs.Payloads[i]; strings.HasPrefix(p, "R") {
+			if f := strings.Split(p[1:], "x"); len(f) == 2 {
+				n, _ := strconv.Atoi(f[1])
+				return strings.Repeat(f[0], n)
+			}
+		}
 		return cs.Payloads[i]
 	}
 	return "-" // the trailing EOF marker
@@ -1375,6 +1381,7 @@ func checkC03(c *ctx) {
 	}
 	// ---- targeted families (oracle only: cached against uncached implementation)
 	nExtreme, nHandover := 90, 240
+	nExtremeModel := 0
 	if c.thorough() {
 		nExtreme, nHandover = 900, 3000
 	}
@@ -1383,7 +1390,12 @@ func checkC03(c *ctx) {
 		x.mu.Lock()
 		res.hist("family: member with a 65536-byte (or nearly) payload, read to its end, cached, re-entered sequentially")
 		x.mu.Unlock()
-		jobs <- job{cs, false}
+		// the first few rd = 1 ones also go through the Lean model (in-block offsets are uint16 there as well)
+		toModel := cs.Rd == 1 && nExtremeModel < 6
+		if toModel {
+			nExtremeModel++
+		}
+		jobs <- job{cs, toModel}
 	}
 	for i := 0; i < nHandover; i++ {
 		cs := c03GenHandover(c.rnd)
